@@ -4,6 +4,7 @@
   BX / NOP semantics (`Align(PC,4)`, PC read-ahead 8 / 4, interworking) is the independent
   fragment in Model/A32.lean.
 -/
+import InjModel.Generated.Layout
 import InjModel.Lemmas.A32
 namespace Inj.Props
 open Inj Inj.A32 Inj.Generated
@@ -103,6 +104,10 @@ theorem C16_callee_partial (m0 : Mem) (src target : Nat) (r : Nat → Nat) (c' :
 example : (patch 0x10003 0x8001).bytes = [0xC0, 0x46, 0x00, 0x4F, 0x38, 0x47, 0x01, 0x80, 0, 0, 0, 0] := by decide
 example : (patch 0x10001 0x8001).addr = 0x10000 := by decide
 
+/-- the model's state is complete for the back ends: `injector_core` declares no process-wide or
+    thread-local mutable state (regenerated from the source on every run) -/
+theorem C16_state_modelled : Generated.Layout.coreStatics = [] := by decide
+
 end Inj.Props
 
 #print axioms Inj.Props.C16_consts_found
@@ -112,3 +117,4 @@ end Inj.Props
 #print axioms Inj.Props.C16_saved
 #print axioms Inj.Props.C16_callee_full_false
 #print axioms Inj.Props.C16_callee_partial
+#print axioms Inj.Props.C16_state_modelled
